@@ -1,14 +1,15 @@
 // Event-level lockstep harness for dispenso::ThreadPool (C01, C03, C08) under harness/vsched_pool.h.
 // One case per line:
-//   <n0> <budget> ; <prog of producer 0> ; <prog of producer 1> ; ... ; S <decision ints...>
+//   <n0> <budget> [<finalq 0|1>] ; <prog of producer 0> ; <prog of producer 1> ; ... ; S <decision ints...>
 // prog tokens (k = body kind: 0 plain, 1 body schedules one child with schedule(), 2 child with ForceQueuingTag):
 //   s<k>  pool.schedule(task)                 f<k>  pool.schedule(task, ForceQueuingTag)
 //   b<n>  pool.scheduleBulk(n, gen)           t<n>  TaskSet(pool).scheduleBulk(n, gen)   (ring fast path when n*4>=threads, n<=threads)
 //   p<k>  pool.schedulePlaced(task, Force)    P<n>  pool.scheduleBulkPlaced(n, gen)      (friend-only API: steal rings)
 //   r<n>  pool.resize(n)                      q     wait for quiescence (snapshot)
-// After its program producer 0 waits for the other producers, waits for quiescence (snapshot), disposes of the task sets
-// (a set with outstanding tasks while a ring beyond numRings_ is non-empty is reported as "wait would hang" and leaked; every other
-// set is destroyed, i.e. really waited for) and destroys the pool.
+// After its program producer 0 waits for the other producers, then (finalq = 1, default) waits for quiescence (snapshot), disposes of the task sets
+// (the harness polls the central queue and rings [0, numRings_) exactly like TaskSet::wait; a set whose outstanding count is still not zero
+// when nothing pollable is left is reported as "wait would hang" and leaked; every other set is destroyed) and destroys the pool.  With finalq = 0 the pool is destroyed right after the other producers
+// finished, while work may still be queued (the destructor's drains run it); task sets are then leaked, never waited for.
 // Output (one line):
 //   events t:name:a:b ... | counts c0 c1 ... | snaps <Q|F>pos:wr:nthreads:nrings:nsteal:central:r0,r1,..:s0,s1,.. ... | ts hang=<n> |
 //   n0 <n0> caps <ring cap> <steal cap> <sharing> timeouts <k> steps <k> | status S
@@ -112,6 +113,7 @@ static std::vector<Op> parseProg(const std::string& s) {
 }
 
 static std::vector<dispenso::TaskSet*> g_sets;
+static long g_finalq = 1;
 
 static void runProg(size_t me, const std::vector<Op>& prog, size_t nprod, const std::vector<int>& prodTids) {
   dispenso::ThreadPool& pool = *g_pool;
@@ -139,17 +141,18 @@ static void runProg(size_t me, const std::vector<Op>& prog, size_t nprod, const 
       if (!S->finished(t)) return false;
     return true;
   }, "producers.joined");
-  S->waitQuiescent();
-  // TaskSet::wait polls the central queue and rings [0, numRings_) itself: it returns iff none of the set's tasks sits elsewhere.
-  // Only then is the set destroyed for real (its destructor waits); otherwise wait() would spin forever: count it and leak the set.
+  if (g_finalq) S->waitQuiescent();
+  // TaskSet::wait polls the central queue and rings [0, numRings_) itself until the set's outstanding count is zero.  The same polling
+  // is done here with the pool's own functions; if the count is still not zero when nothing pollable is left, wait() would spin forever
+  // (task stranded or lost): count it and leak the set.  Otherwise the set is destroyed for real (its destructor's wait returns at once).
   int hang = 0;
-  for (size_t i = 0; i < nprod; ++i) {
+  for (size_t i = 0; i < nprod && g_finalq; ++i) {
     if (!g_sets[i]) continue;
-    bool unpolled = false;
-    size_t nr = g_pool->numRings_.load();
-    for (size_t r = nr; r < g_pool->rings_.size(); ++r)
-      if (g_pool->rings_[r].size() != 0) unpolled = true;
-    if (g_sets[i]->outstandingTaskCount_.load() != 0 && unpolled) ++hang;
+    size_t startRing = 0;
+    while (g_sets[i]->outstandingTaskCount_.load() != 0) {
+      if (!(g_pool->tryExecuteNext() || g_pool->tryExecuteNextFromRings(startRing))) break;
+    }
+    if (g_sets[i]->outstandingTaskCount_.load() != 0) ++hang;
     else delete g_sets[i];
   }
   g_snaps.push_back("hang=" + std::to_string(hang));
@@ -164,6 +167,7 @@ static void runCase(const std::string& line) {
   std::istringstream hd(parts[0]);
   long n0, budget;
   hd >> n0 >> budget;
+  if (!(hd >> g_finalq)) g_finalq = 1;
   std::vector<std::vector<Op>> progs;
   std::vector<long> sched;
   for (size_t i = 1; i < parts.size(); ++i) {
